@@ -14,7 +14,7 @@ from ..server import status as S
 THEOREMS = [
     "C15_tables", "C15_chain", "C15_status_map", "C15_status_before_event", "C15_terminal_sticky",
     "C15_nothing_published_after_terminal", "C15_store_sticky_refuted", "C15_idle_event_after_terminal_flips",
-    "C15_never_stays_running_refuted_engine", "C15_never_stays_running_refuted_retries",
+    "C15_stays_running_engine_unrepaired", "C15_engine_failure_repaired", "C15_never_stays_running_refuted_retries",
     "C15_never_stays_running_refuted_append", "C15_never_stays_running_refuted_idle_write",
     "C15_never_stays_running_partial", "C15_retry_budget", "C15_restart_finalizes", "C15_restart_fault_mislabels",
     "C15_cancel_reflected_refuted", "C15_cancel_reflected_partial", "C15_budget_per_write", "C15_late_request_keeps_outcome",
@@ -26,8 +26,9 @@ EXPLANATION = (
     "isinstance chain -> status update BEFORE append_event, skipped while replaying, always forwarded; the idle adapter's "
     "unretried status=running write; idle_since clearing; cancel_handler's guard; _on_server_start's finalise/mark-failed "
     "paths) with transient store faults as counters, composed with C04's runner LTS (serve: the adapter takes the published "
-    "stream in order, an exception ends the run). Theorems: (1) C15_status_map - for every program/schedule/outcome that ends "
-    "through a reducer exit command (C04 EndedWell) and every fault assignment within the retry budget the row gets the "
+    "stream in order, an exception ends the run). Theorems: (1) C15_status_map - for every program/schedule/retry policy (also one "
+    "that raises) and EVERY way the run ends (C04_terminal_last_unconditional: a run ends only through a reducer exit command) and "
+    "every fault assignment within the retry budget the row gets the "
     "status of the outcome with result/error/completed_at; C15_status_before_event; C15_retry_budget (the budget is exactly "
     "len(backoff)); C15_budget_per_write (after ANY history of one runtime instance the schedule is the configured one, so every "
     "write keeps its full budget - tied to the per-call copy in _retry_store_write via the regenerated retryCopiesPerCall). "
@@ -35,10 +36,13 @@ EXPLANATION = (
     "event of the same run, idle clears, restarts, cancels/purges, late terminal updates, store faults) a terminal row never "
     "shows running again; the stores do not enforce it (C15_store_sticky_refuted, C15_idle_event_after_terminal_flips): it "
     "rests on C04 (C15_nothing_published_after_terminal) and on the regenerated list of writers of status=running "
-    "(C15_tables). (3) C15_never_stays_running_statement is REFUTED four ways (engine-side failure F07; len(backoff)+1 "
+    "(C15_tables). (3) C15_never_stays_running_statement is REFUTED three ways (len(backoff)+1 "
     "failures of the status write; one failure of the unretried append_event; one failure of the idle adapter's unretried "
     "write) - each witness is replayed on the real stack on every run (known findings); C15_never_stays_running_partial is "
-    "what holds. Tie: GenHandlerStatus.lean regenerated from source (chain, tuple of completed_at statuses, TERMINAL_STATUSES, "
+    "what holds (no outcome excluded). A fourth way - an engine-side failure: a retry policy raising inside the reducer, F07 - "
+    "was repaired in the engine; C15_stays_running_engine_unrepaired keeps it on the reducer variant before the repair, "
+    "C15_engine_failure_repaired is the same run on the model (row = failed with the step's error), and the scenario runs on "
+    "the real stack on every run as a regression test (both stores, with/without idle layer, with restart, with in-budget faults). Tie: GenHandlerStatus.lean regenerated from source (chain, tuple of completed_at statuses, TERMINAL_STATUSES, "
     "order of status/append/forward, retry shape, default backoff, exit-command table, event class hierarchy, writers of "
     "'running'); op-stream correspondence of the model against the REAL ServerRuntimeDecorator/IdleRelease/Persistence adapter "
     "chain, _WorkflowService.cancel_handler and _on_server_start over real memory and sqlite stores behind a fault proxy, "
@@ -56,7 +60,7 @@ EXPLANATION = (
 )
 LEVEL_TEXT = (
     "Machine-checked (Lean 4) for all programs, schedules and in-budget fault assignments over an executable model of the "
-    "status machine composed with the engine model; two of the property's three clauses hold, the third is refuted by four "
+    "status machine composed with the engine model; two of the property's three clauses hold, the third is refuted by three "
     "proved witnesses that reproduce on the real code (recorded findings)."
 )
 ASSUMPTIONS = suite.ENGINE_ASSUMPTIONS + [
@@ -86,7 +90,6 @@ CORPUS = os.path.join(VERIF, "harness", "corpus")
 KNOWN = {
     "cancel_released": "C15/cancel_reported_but_still_running:released_handler",
     "restart_mislabel": "C15/restart_finalize_mislabel:completed->failed",
-    "engine": "C15/stays_running:engine_side_failure",
     "retries": "C15/stays_running:status_write_retries_exhausted",
     "append": "C15/stays_running:append_event_fault",
     "idle": "C15/stays_running:idle_status_write_fault",
@@ -416,7 +419,7 @@ def monitor(res: S.CaseResult) -> list[Violation]:
             if rr["status"] != rec["status"]:
                 bad(f"restart_changed_terminal:{rec['status']}->{rr['status']}", "the restart rewrote a terminal row")
         else:
-            want = None  # (an engine-side failure is not in the ticks: the restart resumes the run, which dies again)
+            want = None  # (an engine-side failure would not be in the ticks: the restart would resume the run, which dies again)
             if res.outcome == "store_fault" and lf is not None and lf[0] == "uhs" and lf[1][1] in S.TERMINAL:
                 want = lf[1][1]
             if want is not None and rr["status"] != want:
@@ -474,19 +477,39 @@ def outcome_specs() -> dict[str, dict]:
         "cancel_vs_completion": _one([["gate"], ["yield"], ["ret", "stop"]], externals=[{"op": "cancel", "after_quiet": 0}]),
         "idle_then_cancel": _one([["ret", "none"]]),
         "bad_return": _one([["ret", "bad"]]),
+        # a retry policy whose next() raises (repaired finding C15/stays_running:engine_side_failure): no retry, the run fails
+        # with the step's error / the failure goes to the catch_error handler
+        "policy_raises": _one([["fail_always", 7], ["ret", "stop"]], {"kind": "raises"}),
+        "policy_raises_handled": {"steps": [{"name": "s00", "accepts": [0], "nw": 1, "retry": {"kind": "raises"}, "script": [["fail_always", 2]]},
+                                            {"name": "s12", "accepts": [4], "role": "handler", "for_steps": None, "max_rec": 1,
+                                             "script": [["ret", "stop"]]}], "externals": []},
     }
 
 
 def known_cases() -> list[tuple[str, dict]]:
     out = []
     for store in ("memory", "sqlite"):
-        out.append(("engine", {"store": store, "spec": _one([["fail_always", 7], ["ret", "stop"]], {"kind": "raises"})}))
         out.append(("retries", {"store": store, "spec": _one([["ret", "stop"]]), "fault": {"kind": "uhs_terminal", "k": 3}}))
         out.append(("append", {"store": store, "spec": _one([["ret", "stop"]]), "fault": {"kind": "app_at", "k": 1, "at": 0}}))
         out.append(("idle", {"store": store, "idle_timeout": 1000.0, "spec": _one([["ret", "none"]]), "fault": {"kind": "idle_uhs", "k": 1}}))
         out.append(("cancel_released", {"store": store, "idle_timeout": 2.0, "spec": _one([["ret", "none"]]), "cancel_after_release": True}))
         out.append(("restart_mislabel", {"store": store, "spec": _one([["ret", "stop"]]), "fault": {"kind": "uhs_terminal", "k": 3},
                                          "restart": True, "restart_fault": 1}))
+    return out
+
+
+def engine_failure_regressions() -> list[tuple[dict, str]]:
+    """the witness of the repaired finding C15/stays_running:engine_side_failure and variants of it -> the outcome the run must
+    have: the raising policy grants no retry, the run fails with the step's error (or is completed by the catch_error handler)
+    and the row says so; a row left 'running' is reported by the monitor under the old signature (now a VIOLATION)"""
+    sp = outcome_specs()
+    out = []
+    for store in ("memory", "sqlite"):
+        out.append(({"store": store, "spec": sp["policy_raises"]}, "step_failure"))
+        out.append(({"store": store, "spec": sp["policy_raises"], "idle_timeout": 1000.0}, "step_failure"))
+        out.append(({"store": store, "spec": sp["policy_raises"], "fault": {"kind": "uhs_terminal", "k": 2}, "seed": 2}, "step_failure"))
+        out.append(({"store": store, "spec": sp["policy_raises"], "restart": True}, "step_failure"))
+        out.append(({"store": store, "spec": sp["policy_raises_handled"]}, "result"))
     return out
 
 
@@ -513,6 +536,11 @@ def gen_case(rng: random.Random) -> dict:
     else:
         spec = specgen.gen_spec(rng, allow_sync=False)
         spec["externals"] = [e for e in spec.get("externals", []) if e["op"] in ("send", "cancel")]
+        if rng.random() < 0.10:
+            # retry policies whose next() raises (regression of C15/stays_running:engine_side_failure)
+            for st in spec["steps"]:
+                if st.get("retry") and rng.random() < 0.6:
+                    st["retry"] = {"kind": "raises"}
     if rng.random() < 0.12:
         # the idle layer really releases and reloads: only stickiness of terminal rows is judged for released runs
         spec = specgen.gen_wait_spec(rng)
@@ -764,6 +792,15 @@ def _search(env: Env, out: Outcome, n: int) -> None:
         if not any(v.signature == KNOWN[name] for v in vs):
             out.notes.append(f"known-finding witness '{name}' ({case.get('store')}) did not reproduce: outcome={res.outcome} "
                              f"row={res.record and res.record['status']}")
+    for case, want in engine_failure_regressions():
+        res = run_one(case, "regression")
+        out.count(f"run:policy_raises:{res.outcome}:{res.record and res.record['status']}")
+        vs = monitor(res)
+        out.violations += vs
+        if res.outcome != want and not vs:
+            out.violations.append(Violation(f"C15/policy_raises_outcome:expected={want}:got={res.outcome}",
+                                            f"a retry policy whose next() raises: the run should end as {want} (no retry, the step's own "
+                                            f"failure), it ended as {res.outcome}: {res.outcome_detail}; row={res.record and res.record['status']}", case))
     listed = {k["signature"] for k in load_known() if k["property"] == "C15" and k.get("status", "open") == "open"}
     for w in pending_witnesses():
         if w["signature"] in listed or os.environ.get("VERIF_C15_PENDING") == "1":
